@@ -43,6 +43,17 @@ func PolicyLive(c PolicyCase, o *ev.Obs) *ev.Failure {
 	defer os.Chdir(old)
 	org := origin.New(func(w http.ResponseWriter, r *http.Request, _ []byte, e *origin.Entry) {
 		e.Status = 200
+		if len(r.URL.Path) > 1 && r.URL.Path[1] == 'v' {
+			// a resource with a validator and no lifetime of its own: revalidations are answered 304
+			w.Header().Set("ETag", `"v1"`)
+			if r.Header.Get("If-None-Match") == `"v1"` {
+				e.Status = 304
+				w.WriteHeader(304)
+				return
+			}
+			w.Write([]byte("body of " + r.URL.Path))
+			return
+		}
 		if len(r.URL.Path) > 1 && r.URL.Path[1] == 'n' {
 			w.Header().Set("Cache-Control", "no-store")
 		} else {
@@ -111,6 +122,57 @@ func PolicyLive(c PolicyCase, o *ev.Obs) *ev.Failure {
 			}
 			return ev.Failf("policy.not-followed:lifetime:"+which, "%s: the stored max-age=50 resource has ttl=%d, expected about %d", state, ttl, want)
 		}
+	}
+	// ---- the lifetime a 304 renews an entry for is the default in force when the 304 arrives
+	set := func(doc map[string]any) *ev.Failure {
+		if _, err := config.UpdatePartialFromConfig(env.Cfg, map[string]any{"proxy": map[string]any{"cache_policy": doc}}); err != nil {
+			return ev.Failf("policy.update-rejected", "%v", err)
+		}
+		return nil
+	}
+	get := func(id string) (*px.Resp, *ev.Failure) {
+		r, err := env.Plain(px.Req{Method: "GET", Host: org.Addr(), Target: "/v", ReqID: id})
+		if err != nil || r.Status != 200 {
+			return nil, ev.Failf("policy.no-response", "renewal phase %s: %v", id, err)
+		}
+		return r, nil
+	}
+	if f := set(map[string]any{"default_max_age": "150ms"}); f != nil {
+		return f
+	}
+	if _, f := get("v-store"); f != nil {
+		return f
+	}
+	time.Sleep(220 * time.Millisecond)
+	renew := 1234
+	if def == renew {
+		renew = 4321
+	}
+	if f := set(map[string]any{"default_max_age": fmt.Sprintf("%ds", renew)}); f != nil {
+		return f
+	}
+	r1, f := get("v-reval")
+	if f != nil {
+		return f
+	}
+	if got := org.ByReqID("v-reval"); len(got) != 1 || got[0].Status != 304 {
+		o.Class("renewal-phase:no-304")
+		return nil // the entry was not revalidated with a 304 (evicted, or not yet stale on a slow machine): nothing to judge
+	}
+	r2, f := get("v-hit")
+	if f != nil {
+		return f
+	}
+	o.Class("renewal-phase:judged")
+	if len(org.ByReqID("v-hit")) != 0 || r2.Header.Get("X-Cache") != "HIT" {
+		return ev.Failf("policy.not-followed:renewal", "default_max_age was set to %ds before the 304 arrived, but the renewed entry is not served from the store right afterwards (X-Cache %q after %q)", renew, r2.Header.Get("X-Cache"), r1.Header.Get("X-Cache"))
+	}
+	mm := reTTL.FindStringSubmatch(r2.Header.Get("Cache-Status"))
+	if mm == nil {
+		return ev.Failf("policy.ttl-missing", "renewal phase: Cache-Status %q", r2.Header.Get("Cache-Status"))
+	}
+	if ttl, _ := strconv.Atoi(mm[1]); ttl > renew || ttl < renew-5 {
+		return ev.Failf("policy.not-followed:renewal-lifetime", "default_max_age was %ds at start-up, %v during the steps and was set to %ds before the entry's revalidation was answered 304: the renewed entry has ttl=%d, expected about %d", 3000, c.Steps, renew, ttl, renew)
 	}
 	return nil
 }
